@@ -85,4 +85,15 @@ var props = []Prop{
 			{Name: "race-shared", Engine: "race", Race: true, Quick: 400, Thorough: 40000, Knobs: map[string]string{"mode": "shared"}, Timeout: 240 * time.Second},
 		},
 	},
+	{
+		ID:         "C15",
+		Level:      "exploration",
+		Rule:       "Two simulated hosts and one artefact. Host A holds a generated module layout (with/without go.mod, nested go.mod, 2-10 files in nested directories, relative / module-rooted imports in several spellings, data files with implicit or explicit decoders, diamonds; main anywhere in the tree, named absolutely or relative to a real cwd). The script is evaluated from source on host A, bundled on host A by the real bundler, and the archive bytes alone are evaluated on host B, which holds decoy files at the same absolute paths and has its own cwd. Oracles: bundling succeeds when the source evaluates; values are equal (or both fail); host B's disk records no operation at all; no decoy content in the result; every file whose bytes were read during source evaluation is in the archive exactly once. Fault configuration: EIO at every disk operation position of the bundling run on host A -- a bundle reported as built must still evaluate to the source value. Non-trivial = >=2 files read; distinct = distinct (import kinds, module shape, files read, cwd choices).",
+		Components: map[string][]string{"real": {"pkg/bundle.BundledScriptsTo", "syntax: SetupBundle, bundleLocalFile, addModuleSentinel, createConfig, EvaluateBundleCtx, WithBundleRun, GetMainBundleSource, import.go", "pkg/ctxfs/ctxzip, afero zipfs, archive/zip"}, "stub": {"both hosts' disks: aaverif/simfs", "process cwd: real empty directories"}},
+		Assume:     []string{"sentinels are generated well-formed (module <name>\\n); remote and Go-module imports are out of scope", "error messages are not compared (they embed paths)"},
+		Batches: []Batch{
+			{Name: "layouts", Engine: "bundle", Quick: 2000, Thorough: 150000, Timeout: 60 * time.Second},
+			{Name: "bundling-faults", Engine: "bundle", Quick: 150, Thorough: 5000, Knobs: map[string]string{"faults": "enum"}, Timeout: 120 * time.Second},
+		},
+	},
 }
